@@ -908,11 +908,45 @@ func (c *SCtx) evalCall(e *SExpr) *Val {
 			}
 			env[p] = a
 		}
+		// large scalar arguments are bound once with an SMT let instead of being repeated at
+		// every use of the parameter in the body
+		type letb struct{ v, def string }
+		var lets []letb
+		for _, p := range pf.Params {
+			a := env[p]
+			if a.K == KScalar && a.T.Const == nil && len(a.T.S) > 48 {
+				if ex.noName == 0 {
+					env[p] = &Val{K: KScalar, Typ: a.Typ, T: ex.name(a.T, "arg."+p)}
+					continue
+				}
+				ex.letSeq++
+				v := fmt.Sprintf("lv.%s.%d", p, ex.letSeq)
+				lets = append(lets, letb{v, a.T.S})
+				env[p] = &Val{K: KScalar, Typ: a.Typ, T: Term{S: v, Sort: a.T.Sort}}
+			}
+		}
 		c2 := &SCtx{ex: ex, fr: nil, pkg: pf.Pkg, env: env, cur: c.cur, old: c.old, inOld: c.inOld, goal: c.goal, loopPre: c.loopPre}
 		if c2.pkg == "" {
 			c2.pkg = c.pkg
 		}
-		return c2.eval(pf.Body)
+		r := c2.eval(pf.Body)
+		if len(lets) > 0 && r != nil {
+			if r.K != KScalar {
+				return c.fail("pure %s: non-scalar result with let-bound arguments", e.Name)
+			}
+			if r.T.Const == nil {
+				var b strings.Builder
+				b.WriteString("(let (")
+				for _, l := range lets {
+					fmt.Fprintf(&b, "(%s %s)", l.v, l.def)
+				}
+				b.WriteString(") ")
+				b.WriteString(r.T.S)
+				b.WriteString(")")
+				r = &Val{K: KScalar, Typ: r.Typ, T: Term{S: b.String(), Sort: r.T.Sort}}
+			}
+		}
+		return r
 	}
 	return c.fail("unknown function %s in specification", e.Name)
 }
